@@ -155,7 +155,16 @@ class WriterHist(Engine):
                 params.append([n, rw.choice(types)])
             bf = [f for f in fluents if f["type"] == "bool"]
             eff = rw.choice(bf)["name"] if bf else None
-            actions.append({"name": take_in(at), "params": params, "durative": temporal and rw.random() < 0.6, "eff": eff})
+            ad = {"name": take_in(at), "params": params, "durative": temporal and rw.random() < 0.6, "eff": eff}
+            unary = [f for f in fluents if f["type"] == "bool" and len(f["params"]) == 1]
+            if unary and rw.random() < 0.45:
+                # a quantified condition; the bound variable may be named like an object or a parameter of its own type
+                f = rw.choice(unary)
+                vt = f["params"][0][1]
+                same = [o for o, t in objects if t == vt] + [pn_ for pn_, pt_ in params if pt_ == vt]
+                vn = rw.choice(same) if same and rw.random() < 0.6 else rw.choice(["v", "x", "X", "at", "2", "a b", "obj"])
+                ad["quant"] = {"kind": rw.choice(["exists", "forall"]), "var": vn, "type": vt, "fluent": f["name"]}
+            actions.append(ad)
         world = {"types": types, "objects": objects, "fluents": fluents, "actions": actions, "dup": dup,
                  "traj": rw.random() < 0.2}
         ops = []
@@ -204,6 +213,7 @@ class WriterHist(Engine):
             p.add_fluent(f, default_initial_value=False if fd["type"] == "bool" else 0)
             fls[fd["name"]] = f
         acts = OrderedDict()
+        variables = []
         for ad in world["actions"]:
             sig = OrderedDict()
             for pn, pt in ad["params"]:
@@ -233,6 +243,17 @@ class WriterHist(Engine):
                         a.add_effect(EndTiming(), f(*args), True)
                     else:
                         a.add_effect(f(*args), True)
+            q = ad.get("quant")
+            if q and q["fluent"] in fls and q["type"] in types:
+                v = up.model.Variable(q["var"], types[q["type"]], env)
+                em = env.expression_manager
+                body = fls[q["fluent"]](v)
+                cond = em.Exists(body, v) if q["kind"] == "exists" else em.Forall(body, v)
+                if ad.get("durative"):
+                    a.add_condition(StartTiming(), cond)
+                else:
+                    a.add_precondition(cond)
+                variables.append(v)
             p.add_action(a)
             acts[ad["name"]] = a
         bf = [f for f in fls.values() if f.type.is_bool_type() and f.arity == 0]
@@ -240,7 +261,7 @@ class WriterHist(Engine):
             p.add_goal(bf[0])
             if world.get("traj"):
                 p.add_trajectory_constraint(env.expression_manager.Sometime(bf[0]))
-        return env, p, types, objs, fls, acts
+        return env, p, types, objs, fls, acts, variables
 
     def make_plan(self, p, acts, objs):
         items = []
@@ -281,7 +302,7 @@ class WriterHist(Engine):
 
     def _run(self, script, world, ctx):
         try:
-            env, p, types, objs, fls, acts = self.build(world)
+            env, p, types, objs, fls, acts, variables = self.build(world)
         except BuildError:
             raise
         except Exception as ex:
@@ -314,7 +335,7 @@ class WriterHist(Engine):
 
         def audit(tag):
             seen = {}
-            for cat, lst in list(items.items()) + [("param", [q for _, q in params])]:
+            for cat, lst in list(items.items()) + [("param", [q for _, q in params]), ("param", variables)]:
                 for it in lst:
                     try:
                         n = w.get_pddl_name(it)
